@@ -4,13 +4,31 @@ lending property's prefix; the files stay where they are)."""
 import copy, importlib.util, os
 
 
-def borrow(here_file, lender, names, prefix=None, slow=()):
+import re as _re
+
+
+def _harness_names(path):
+    """harness names defined in a cases file, read textually (cheap, and it
+    keeps files that only borrow themselves from being executed)"""
+    try:
+        txt = open(path).read()
+    except OSError:
+        return set()
+    return set(_re.findall(r'name="([^"]+)"', txt)) | \
+        set(_re.findall(r'_h\("([^"]+)"', txt))
+
+
+def borrow(here_file, lender, names, prefix=None, slow=(), max_quick=None, max_thorough=None):
     base = os.path.dirname(os.path.abspath(here_file))
     out = []
     ldir = os.path.join(base, "..", lender)
     for fn in sorted(os.listdir(ldir)):
         if not (fn == "cases.py" or (fn.startswith("cases_extra_") and fn.endswith(".py"))):
             continue
+        if fn == "cases_extra_auto.py":
+            continue        # generated borrow lists never lend (no cycles)
+        if not (set(names) & _harness_names(os.path.join(ldir, fn))):
+            continue        # nothing wanted in this file: do not execute it
         spec = importlib.util.spec_from_file_location(
             "borrow_%s_%s" % (lender, fn[:-3]), os.path.join(ldir, fn))
         mod = importlib.util.module_from_spec(spec)
@@ -26,6 +44,22 @@ def borrow(here_file, lender, names, prefix=None, slow=()):
             if lender not in lt:
                 lt.append(lender)
             c["loop_tables"] = lt
+            # a borrowed harness with many cases (tree shapes, option lines)
+            # is sampled evenly: the lender's own check runs the full set
+            if c.get("cases") and (max_quick or max_thorough):
+                qc = [x for x in c["cases"] if x.get("tier", "quick") == "quick"]
+                tc = [x for x in c["cases"] if x.get("tier", "quick") != "quick"]
+                if max_quick and len(qc) > max_quick:
+                    step = len(qc) / float(max_quick)
+                    keep = [qc[int(i * step)] for i in range(max_quick)]
+                    tc = [x for x in qc if x not in keep] + tc
+                    for x in tc:
+                        x["tier"] = "thorough"
+                    qc = keep
+                if max_thorough is not None and len(tc) > max_thorough:
+                    step = len(tc) / float(max_thorough) if max_thorough else 0
+                    tc = [tc[int(i * step)] for i in range(max_thorough)]
+                c["cases"] = qc + tc
             if h["name"] in slow:      # too slow for the borrower's quick tier
                 if c.get("cases"):
                     for cc in c["cases"]:
